@@ -636,6 +636,9 @@ WRAPPERS = ('std::', '__gnu_cxx::', 'xenium::marked_ptr', 'xenium::reclamation::
             'xenium::detail::marked_ptr')
 
 
+SWRAPPERS = ('std::', '__gnu_cxx::', 'marked_ptr', 'detail::concurrent_ptr', 'concurrent_ptr')
+
+
 def _strip_templates(s):
     out, depth = [], 0
     for ch in s:
@@ -684,7 +687,8 @@ def symbolize(binary, pcs):
             best = ('?', '?', 0)
             ctx = []
             for fn, loc in frames.get(key, []):
-                if '/xenium/' in loc and not fn.startswith(WRAPPERS):
+                # thin wrappers are recognised on the simplified name (a return type such as std::pair<...> must not hide the function)
+                if '/xenium/' in loc and not simplify_fn(fn).startswith(SWRAPPERS):
                     f, _, ln = loc.partition(':')
                     ln = int(re.sub(r'\D.*$', '', ln) or 0)
                     if best[0] == '?':
